@@ -193,7 +193,7 @@ func drvStd(pairs bool) [][]Action {
 	return out
 }
 
-var pathAlphabet = []string{"a", "b", "d", "D", "x", "go", "int", "v2", "1", "9", "-", ".", "_", "~", "é", "ß", "д", "日本", "٣", "/", "/", "+", "@"}
+var pathAlphabet = []string{"a", "b", "d", "D", "x", "go", "int", "v2", "1", "9", "-", ".", "_", "~", "é", "ß", "д", "日本", "٣", "/", "/", "+", "@", "\u212a", "\u0130", "Ⅷ"}
 
 func randElem(r *rand.Rand) string {
 	n := 1 + r.Intn(4)
